@@ -238,12 +238,14 @@ def run(chk):
     check_d4(chk, m, prog)
     # the cursor the decoder relies on: sticky, guarded (truncation never yields success)
     chk.rule_prefix = "pack."
-    chk.rule_filter = lambda r: r.startswith(("P1", "P2", "P3", "P4.zero-on-overflow"))
+    chk.rule_filter = lambda r: r.startswith(("P1", "P2", "P3", "P4.zero-on-overflow", "P6"))
     mp = build.load_unit("librfn/pack.c")
     chk.note_unit(mp)
     for fn in mp.defined_functions():
         if C12.is_pack_fn(fn) and C12.NAME_RE.match(fn.name):
             C12.check_transfer(chk, mp, fn)
+    # "a value larger than the supplied length when the header is incomplete" is sz - rf_pack_remaining() with remaining < 0
+    C12.check_aux(chk, mp)
     chk.rule_prefix = ""
     chk.rule_filter = None
     # the text itself is produced by strdup_printf: its contract (complete text, own buffer) is part of this property's clause
